@@ -487,7 +487,11 @@ def postdominators(f):
     succs = f.succs()
     reach = f.reachable(0)
     EXIT = n
-    sx = {b: (list(succs[b]) if succs[b] else [EXIT]) for b in reach}
+    dead = {b for b in reach if f.is_unreachable_block(b)}
+    sx = {}
+    for b in reach:
+        ss = [s for s in succs[b] if s not in dead]
+        sx[b] = ss if ss else [EXIT]
     full = set(reach) | {EXIT}
     pdom = {b: set(full) for b in reach}
     pdom[EXIT] = {EXIT}
